@@ -27,12 +27,13 @@ type c09Job struct {
 type jobPanic struct{ id int }
 
 type c09Env struct {
-	rec  *recorder
-	inv  *worker.DefaultInvokable[*c09Job]
-	pool *worker.DefaultWorkerPool
-	max  int
-	mu   sync.Mutex
-	ran  map[int]int
+	rec   *recorder
+	inv   *worker.DefaultInvokable[*c09Job]
+	pool  *worker.DefaultWorkerPool
+	max   int
+	mu    sync.Mutex
+	ran   map[int]int
+	stale bool // the handler installed by newC09 has been replaced
 }
 
 func newC09(max, standby, batch, C, B int) *c09Env {
@@ -50,6 +51,10 @@ func newC09(max, standby, batch, C, B int) *c09Env {
 			id := 0
 			if jp, ok := p.(jobPanic); ok {
 				id = jp.id
+			}
+			if e.stale {
+				e.rec.ev(E{"ev": "stalehandler", "id": id, "r": fmt.Sprint(p)})
+				return
 			}
 			e.rec.ev(E{"ev": "handler", "id": id, "r": fmt.Sprint(p)})
 		})
@@ -275,6 +280,41 @@ func c09ExpiryBurst(w *ndWriter, wait time.Duration) {
 	e.finish(w, "expiry-burst", ok)
 }
 
+// the panic handler is replaced while workers are alive; a job submitted AFTER the replacement panics: the report belongs to the
+// handler installed at that time, not to the one the worker saw when it was spawned
+func c09HandlerReplaced(w *ndWriter, wait time.Duration) {
+	e := newC09(2, 2, 0, 4, 4)
+	acc := map[int]bool{}
+	for id := 1; id <= 2; id++ { // both workers exist and have run something
+		if e.schedule(mkJob(id, "ok"), 0) == "ok" {
+			acc[id] = true
+		}
+	}
+	e.quiesce(acc, wait)
+	old := e.pool
+	_ = old
+	e.pool.SetPanicHandler(func(p interface{}) {
+		id := 0
+		if jp, ok := p.(jobPanic); ok {
+			id = jp.id
+		}
+		e.rec.ev(E{"ev": "handler", "id": id, "r": "replacement"})
+	})
+	e.stale = true // from now on the first handler must not be called any more
+	for id := 3; id <= 6; id++ {
+		kind := "ok"
+		if id%2 == 1 {
+			kind = "panic"
+		}
+		if e.schedule(mkJob(id, kind), 0) == "ok" {
+			acc[id] = true
+		}
+	}
+	e.quiesce(acc, wait)
+	time.Sleep(2 * time.Millisecond)
+	e.finish(w, "handler-replaced", true)
+}
+
 // a burst of max panicking jobs, then a trickle
 func c09PanicBurst(w *ndWriter, wait time.Duration) {
 	e := newC09(3, 3, 0, 8, 8)
@@ -478,6 +518,8 @@ func c09Main(args []string) error {
 		runs := 0
 		c09PanicStrand(w, wait)
 		c09PanicStrandSlowExit(w, wait)
+		c09HandlerReplaced(w, wait)
+		runs++
 		c09ExpiryBurst(w, wait)
 		runs += 2
 		c09PanicBurst(w, wait)
